@@ -20,8 +20,27 @@ GENERATORS = [
 ]
 
 
+FALLBACK = Path(__file__).resolve().parent / "fallback"
+FAILED_FILES = {}     # "Gen/GenX.v" -> error text, filled by run()
+
+
+def _failed(outdir, fname, why):
+    """A translator could not read the current source. Every property whose proof depends on this table is reported as
+    broken by lib/core.py (FAILED_FILES is matched against the property's dependency cone). So that the OTHER properties
+    still build (one extraction unit holds all models), the last table that was translated successfully - committed under
+    translators/fallback/ - is written with a banner; without one, a file that cannot be compiled."""
+    FAILED_FILES["Gen/" + fname] = why
+    fb = FALLBACK / fname
+    if fb.exists():
+        write_if_changed(Path(outdir) / fname, f"(* TRANSLATOR FAILED on the current source: {why.splitlines()[0][:200]} -- FALLBACK TABLE, "
+                         "properties depending on it are reported as not shown *)\n" + fb.read_text())
+    else:
+        write_if_changed(Path(outdir) / fname, f"(* translator failed: {why.splitlines()[0][:200]} *)\nDefinition translator_failed : False := I.\n")
+
+
 def run(repo: Path, outdir: Path):
     errors = []
+    FAILED_FILES.clear()
     for modname, fn, fname in GENERATORS:
         try:
             mod = importlib.import_module(modname)
@@ -29,11 +48,10 @@ def run(repo: Path, outdir: Path):
             write_if_changed(Path(outdir) / fname, text + "\n")
         except TranslateError as e:
             errors.append(f"{modname}: {e}")
-            # leave a file that cannot be compiled, so no stale table is silently used
-            write_if_changed(Path(outdir) / fname, f"(* translator failed: {e} *)\nDefinition translator_failed : False := I.\n")
+            _failed(outdir, fname, str(e))
         except Exception:
             errors.append(f"{modname}: {traceback.format_exc()}")
-            write_if_changed(Path(outdir) / fname, "(* translator crashed *)\nDefinition translator_failed : False := I.\n")
+            _failed(outdir, fname, "translator crashed: " + traceback.format_exc().splitlines()[-1])
     return errors
 
 
